@@ -307,13 +307,14 @@ func readAttr(b *bolt.Bucket, attr *metadata.Attr) error {
 			if attr.Xattrs == nil {
 				attr.Xattrs = make(map[string][]byte)
 			}
-			attr.Xattrs[string(v)] = b.Get(bucketKeyXattrValue)
+			// bolt values are only valid inside the transaction (they alias the memory map)
+			attr.Xattrs[string(v)] = append([]byte{}, b.Get(bucketKeyXattrValue)...)
 		case string(bucketKeyXattrsExtra):
 			if err := b.Bucket(k).ForEach(func(k, v []byte) error {
 				if attr.Xattrs == nil {
 					attr.Xattrs = make(map[string][]byte)
 				}
-				attr.Xattrs[string(k)] = v
+				attr.Xattrs[string(k)] = append([]byte{}, v...)
 				return nil
 			}); err != nil {
 				return err
